@@ -74,7 +74,7 @@ type tableCfg struct {
 	Rounds    int    `json:"rounds"`
 	Rangers   int    `json:"rangers"`
 	DelayPerM int    `json:"delay_per_mille"`
-	Procs     int    `json:"gomaxprocs"` // 0 = all CPUs; the table's parallel copy splits the buckets by GOMAXPROCS
+	Procs     int    `json:"gomaxprocs"`          // 0 = all CPUs; the table's parallel copy splits the buckets by GOMAXPROCS
 	HashMode  int    `json:"hash_mode,omitempty"` // degraded key hashes (hook VerifSetHash), see hashModes
 	Stampede  bool   `json:"stampede,omitempty"`  // the churners start each round together (barrier)
 }
@@ -84,10 +84,10 @@ type tableCfg struct {
 // keys because every table seeds its own hash.
 var hashModes = []func(uint64) uint64{
 	nil,
-	func(h uint64) uint64 { return h&0x7f | (h>>7&3)<<7 },   // four root buckets: long chains
-	func(h uint64) uint64 { return h&^0x7f | h&1 },           // two meta bytes: every lookup compares keys
-	func(h uint64) uint64 { return h&1 | (h>>7&1)<<7 },       // both
-	func(h uint64) uint64 { return 0x2a },                    // one chain, one meta byte
+	func(h uint64) uint64 { return h&0x7f | (h>>7&3)<<7 }, // four root buckets: long chains
+	func(h uint64) uint64 { return h&^0x7f | h&1 },        // two meta bytes: every lookup compares keys
+	func(h uint64) uint64 { return h&1 | (h>>7&1)<<7 },    // both
+	func(h uint64) uint64 { return 0x2a },                 // one chain, one meta byte
 }
 
 var hashModeNames = []string{"seeded", "4 root buckets", "2 meta bytes", "2 root buckets x 2 meta bytes", "constant"}
@@ -1133,7 +1133,10 @@ func runMPSC(cfg mpscCfg) (violation string, st map[string]int64) {
 	// "empty" must be truthful: an element whose push had returned before TryPop was called and which
 	// was delivered only after that TryPop returned was in the buffer all along
 	{
-		type pe struct{ end, pop int64; e mpscElem }
+		type pe struct {
+			end, pop int64
+			e        mpscElem
+		}
 		var els []pe
 		for i, e := range popped {
 			if e.Seq < len(endOf[e.P]) {
